@@ -100,7 +100,7 @@ LOADER_TRUST = COMMON_TRUST + [
     "O1 stubs with assumed total contracts: chrono date parsing (vx_parse_date), Display of SauceString (vx_sstr_to_string)",
 ]
 PROPS["C11"] = dict(
-    units=["sauce"],
+    units=["sauce", "buf_sauce", "idf_load"],
     trusted_base=LOADER_TRUST + ["array-vs-slice comparison `SAUCE_ID != data[o..o+5]` is uninterpreted in Verus: which files are *recognised* as carrying SAUCE is not decided, only what is cut when they are"],
     unverified_remainder=["Buffer::write_sauce_info is proved for its framing (appends exactly EOF + COMNT block + 128 bytes, leaves the content untouched, comment count at record offset 104), for the title / author / group content bytes at offsets 7 / 42 / 62, and for data type, file type / BIN width, TInfo1 / TInfo2 and the ice, aspect-ratio and letter-spacing flag bits; NOT decided: the id and version bytes, the padding of the text fields, TInfoS (font name), comment lines' contents; Buffer accessors, chrono date, to_le_bytes and SauceData::default() fields are O1 stubs",
                           "equality of the loaded pictures beyond byte-identical loader input (argued from determinism of the loaders)"],
